@@ -304,3 +304,52 @@ def history_of(parents, text):
         msgs.append(msg)
     msgs.reverse()
     return text, msgs
+
+
+# ---------------------------------------------------------------- plain enumeration (no state graph)
+_E = {}
+
+
+def _enum_init(worker_fn, opts):
+    _E['ns'] = target.load()
+    _E['fn'] = worker_fn
+    _E['opts'] = opts
+
+
+def _enum_chunk(items):
+    res = Result()
+    _E['fn'](_E['ns'], items, res, _E['opts'])
+    return res
+
+
+def run_enum(worker_fn, items, opts=None, chunk=200, time_cap=None):
+    """Run worker_fn(ns, items_chunk, res, opts) over all items in a forked pool; merge in order."""
+    t0 = time.time()
+    opts = opts or {}
+    items = list(items)
+    chunks = [items[i:i + chunk] for i in range(0, len(items), chunk)]
+    total = Result()
+    info = {'items': len(items), 'caps_hit': []}
+    ctx = mp.get_context('fork')
+    done = 0
+    with ctx.Pool(NWORKERS, initializer=_enum_init, initargs=(worker_fn, opts)) as pool:
+        for r in pool.imap(_enum_chunk, chunks):
+            total.merge(r)
+            done += 1
+            if time_cap and time.time() - t0 > time_cap and done < len(chunks):
+                info['caps_hit'].append(f'time_cap={time_cap}s: {done} of {len(chunks)} chunks explored')
+                pool.terminate()
+                break
+    info['wall_s'] = time.time() - t0
+    return total, info
+
+
+def add_simple_finding(res, prop, sig, detail, **fields):
+    key = (prop, sig)
+    f = res.findings.get(key)
+    if f is None:
+        d = {'property': prop, 'sig': sig, 'detail': detail, 'count': 1}
+        d.update(fields)
+        res.findings[key] = d
+    else:
+        f['count'] += 1
